@@ -10,4 +10,10 @@ if [ ! -x "$bin" ] || [ -n "$(find "$here/checker" -name '*.go' -newer "$bin" -n
   (cd "$here/checker" && GOFLAGS=-mod=vendor go build -o bin/gfcheck ./cmd/gfcheck) || { echo "BROKEN: checker build failed"; exit 2; }
 fi
 mkdir -p "$here/evidence"
-exec "$bin" -prop "$prop" -tier "$tier" -repo "${VERIF_REPO:-/repo}" -evidence "$here/evidence/$prop.json" -known "$here/known_findings.json"
+"$bin" -prop "$prop" -tier "$tier" -repo "${VERIF_REPO:-/repo}" -evidence "$here/evidence/$prop.json" -known "$here/known_findings.json"
+rc=$?
+if [ "$tier" = "thorough" ] && [ -z "${VERIF_NO_SELFTEST:-}" ]; then
+  # rule self-test on scratch copies of the current tree: evidence of the rules' power, never part of the verdict
+  python3 "$here/tools/selftest.py" --prop "$prop" --merge "$here/evidence/$prop.json" 2>&1 | grep -E "^SELFTEST" || true
+fi
+exit $rc
